@@ -3,6 +3,7 @@
 Invariants evaluated after every fully processed external event (I1 orphan flows, I3 orphan
 actions, I4 an activated flow owed by a running activator is alive) plus the action life-cycle automaton over the whole event history (I2), with action
 Finished events delivered late / early / never / twice by the simulated UMIM client."""
+from ..gen import colang2 as G
 from ..kernel.trace import Trace
 from ..worlds import interp as I
 from ..worlds import interp_run as IR
@@ -18,7 +19,7 @@ class C06(InterpProp):
             "fault kinds per action: never finished, finished twice, finished before started, finished 30 s late, no Started, Finished after Stop. evaluations = processed external events; "
             "non-trivial = steps at which a flow instance finished or failed while it still had running children or unfinished actions; distinct = distinct normalised interpreter states at such steps")
     expected_probes = ["parent_ended_with_live_children", "parent_ended_with_unfinished_action", "stop_sent", "finished_after_stop_delivered", "started_delivered_after_stop", "activated_flow_restarted", "tie_break_decided"]
-    quick_runs = 2400
+    quick_runs = 4000
     thorough_runs = 200000
 
     def generate(self, d, index, tier):
@@ -29,7 +30,18 @@ class C06(InterpProp):
             sc["client"]["fault_bias"] = 4
             sc["flavour"] = "scope_race"
             return sc
-        sc = gen_interp_scenario(d, with_faults=True, allow_vars=d.chance(0.5, "vars"), finishing_main=True)
+        if d.chance(0.3, "kinship"):
+            prog, deliveries = G.gen_kinship_competition(d)
+            # "never": actions are started but never finish and a Stop gets no reaction - whether and how often the interpreter
+            # stops a (shared) action is then the only thing that ends it
+            fmode = d.weighted([("none", 4), ("never", 3), ("mix", 3)], "kfmode")
+            faults = [] if fmode == "none" else (["never"] if fmode == "never" else ([f for f in ("never", "late", "started_late", "dup", "early", "no_started") if d.chance(0.3, "kf", f)] or ["late"]))
+            return {"program": prog, "deliveries": deliveries, "client": {"seed": d.randint(0, 1 << 30, "cseed"), "faults": faults}, "tie_seed": d.randint(0, 1 << 30, "tseed"),
+                    "gap_seed": d.randint(0, 1 << 30, "gseed"), "flavour": "kinship_competition"}
+        few = d.chance(0.45, "few_events")
+        sc = gen_interp_scenario(d, with_faults=not few or d.chance(0.5, "few_faults"), allow_vars=d.chance(0.5, "vars"), finishing_main=True, few_events=few)
+        if few:
+            sc["flavour"] = "same_event_race"
         return sc
 
     def execute(self, sc):
